@@ -366,6 +366,8 @@ def register(M):
     def dtype_kind(v, default):
         if v is None:
             return default
+        if tag(v) == 'dtype':
+            return v[1]
         if tag(v) in ('builtin', 'ext'):
             return {'bool': 'bool', 'int': 'int', 'float': 'float', 'object': 'obj', 'numpy.byte': 'int', 'numpy.int64': 'int', 'numpy.float64': 'float', 'numpy.bool_': 'bool'}.get(v[1]) or _unsup('dtype %s' % v[1])
         raise Unsupported('dtype %r' % (v,))
